@@ -113,11 +113,26 @@ func (r *simReader) Read(p []byte) (int, error) {
 type simWriter struct {
 	offer chan []byte
 	grant chan bool // true: written; false: the injected fault "write error"
+	// noblock: every write is accepted at once (an infinitely fast GUI). Used
+	// when the code under test holds a lock while it writes: a goroutine parked
+	// in Write would then keep others waiting on a sync.Mutex, which synctest
+	// does not treat as durably blocked, and the bubble would never go quiescent.
+	noblock bool
+	sink    func([]byte)
 }
+
+// writerNoBlock is set per worker process by the driver (see Job.NoBlockWriter).
+var writerNoBlock bool
 
 var errSimWrite = errors.New("simulated write error (GUI end of the pipe is broken)")
 
 func (w *simWriter) Write(p []byte) (int, error) {
+	if w.noblock {
+		// recorded through the same ordered buffer as the other events raised
+		// by driver goroutines (a GOCALL precedes the lines of its search)
+		w.sink(append([]byte(nil), p...))
+		return len(p), nil
+	}
 	w.offer <- append([]byte(nil), p...)
 	if ok := <-w.grant; !ok {
 		return 0, errSimWrite
@@ -211,6 +226,13 @@ func (w *uciWorld) flushAsync() bool {
 	w.async = nil
 	w.asyncMu.Unlock()
 	for _, e := range evs {
+		if e.kind == "OUT" {
+			// non-blocking writer: offered and read at once
+			if e.data == "readyok\n" {
+				w.readyokOwed--
+			}
+			w.out.Events = append(w.out.Events, Event{Seq: len(w.out.Events), T: e.t, Kind: "WOFFER", Data: e.data})
+		}
 		seq := len(w.out.Events)
 		w.out.Events = append(w.out.Events, Event{Seq: seq, T: e.t, Kind: e.kind, Data: e.data, N: e.n})
 		if e.dst != nil {
@@ -798,7 +820,8 @@ func newUCIWorld(sc *UCIScenario) *uciWorld {
 	out := &UCIOutcome{Stats: map[string]int64{}}
 	w := &uciWorld{sc: sc, out: out, t0: time.Now(), errW: &bytes.Buffer{}, autoGrant: sc.AutoGrant}
 	w.rd = &simReader{ch: make(chan []byte)}
-	w.wr = &simWriter{offer: make(chan []byte), grant: make(chan bool)}
+	w.wr = &simWriter{offer: make(chan []byte), grant: make(chan bool), noblock: writerNoBlock}
+	w.wr.sink = func(p []byte) { w.evAsync("OUT", string(p), 0, nil) }
 	w.co = &coop{toSched: make(chan struct{}), resume: make(chan struct{}), resumeN: make(chan int)}
 	w.done = make(chan struct{})
 	ws := &wrapSearch{w: w}
